@@ -420,9 +420,12 @@ def coverage_common(res):
 
 # ---------------------------------------------------------------- hand-assembled streams (C08 C09 C10)
 def unknown_object(rng, code, size, declared=None):
-    """an object of a type the library does not know: base header + arbitrary body without the signature"""
+    """an object of a type the library does not know: base header + arbitrary body without the signature; its headerSize and
+    headerVersion fields are whatever the unknown writer put there (mostly 16 / 1, sometimes larger than the object)"""
     body = bytes(rng.choice(b'\x00\x01ABJKMNPQxyz\xff') for _ in range(max(0, size - 16)))
-    return struct.pack('<4sHHII', SIG_OBJ, 16, 1, size if declared is None else declared, code) + body
+    hsz = 16 if rng.random() < 0.6 else rng.choice([0, 16, 24, 32, 40, 48, 100, 0xffff])
+    hver = 1 if rng.random() < 0.7 else rng.choice([0, 1, 2, 3])
+    return struct.pack('<4sHHII', SIG_OBJ, hsz, hver, size if declared is None else declared, code) + body
 
 
 def filler(rng, n, prefix=b''):
